@@ -299,3 +299,784 @@ Section OneNode.
     - rewrite andb_false_r in He. discriminate.
   Qed.
 End OneNode.
+
+(** ** Lists of nodes *)
+
+Lemma set_nth_length A i (x : A) l : length (set_nth i x l) = length l.
+Proof. revert i. induction l as [|y l IH]; intros [|i]; cbn; auto. Qed.
+
+Lemma nth_set_same A i (x y : A) l : nth_error l i = Some y -> nth_error (set_nth i x l) i = Some x.
+Proof. revert i. induction l as [|z l IH]; intros [|i]; cbn; intros H; try discriminate; auto. Qed.
+
+Lemma nth_set_other A i j (x : A) l : i <> j -> nth_error (set_nth i x l) j = nth_error l j.
+Proof.
+  revert i j. induction l as [|z l IH]; intros [|i] [|j] H; cbn; auto; try congruence.
+Qed.
+
+Lemma map_set_nth A B (f : A -> B) i x y l :
+  nth_error l i = Some y -> f x = f y -> map f (set_nth i x l) = map f l.
+Proof.
+  revert i. induction l as [|z l IH]; intros [|i]; cbn; intros H E; try discriminate; auto.
+  - inversion H; subst. now rewrite E.
+  - now rewrite (IH i H E).
+Qed.
+
+Lemma nth_error_lt A (l : list A) i x : nth_error l i = Some x -> i < length l.
+Proof. intros H. apply nth_error_Some. congruence. Qed.
+
+(** ** The global stack of pending calls *)
+
+Definition kinds_of (i : nat) (G : list (nat * gkind)) : list gkind :=
+  map snd (filter (fun e => fst e =? i) G).
+
+Lemma kinds_of_cons_same i k G : kinds_of i ((i, k) :: G) = k :: kinds_of i G.
+Proof. unfold kinds_of. cbn. now rewrite Nat.eqb_refl. Qed.
+
+Lemma kinds_of_cons_other i j k G : j <> i -> kinds_of i ((j, k) :: G) = kinds_of i G.
+Proof. intros H. unfold kinds_of. cbn. destruct (Nat.eqb_spec j i); [contradiction|reflexivity]. Qed.
+
+Definition kind_ok (len : nat) (e : nat * gkind) : Prop :=
+  match e with
+  | (j, KExt) => j < len
+  | (j, KUp) => 0 < j /\ j < len
+  | (j, KDn) => S j < len
+  end.
+
+Fixpoint wfG (len : nat) (G : list (nat * gkind)) : Prop :=
+  match G with
+  | [] => True
+  | e :: G' => kind_ok len e /\ wfG len G' /\
+               match G' with [] => True | e' :: _ => fst e = owner_above e' end
+  end.
+
+(** the node whose handler is running (or, at an idle point, may be entered) *)
+Definition runner_ok (x : nat) (G : list (nat * gkind)) : Prop :=
+  match G with [] => True | e :: _ => owner_above e = x end.
+
+Lemma wfG_tl len e G : wfG len (e :: G) -> wfG len G /\ runner_ok (fst e) G.
+Proof. cbn. intros (_ & H & H'). split; [exact H|]. destruct G; cbn; auto. Qed.
+
+(** the innermost pending call of a node other than the running one is a call
+    towards the running one *)
+Lemma first_kind len G : forall x, wfG len G -> runner_ok x G ->
+  forall i, (i < x -> match kinds_of i G with [] => True | k :: _ => k = KDn end) /\
+            (x < i -> match kinds_of i G with [] => True | k :: _ => k = KUp end).
+Proof.
+  induction G as [|[j k] G IH]; intros x Hwf Hrun i; [split; intros; exact I|].
+  destruct (wfG_tl Hwf) as [Hwf' Hrun']. cbn [fst] in Hrun'.
+  destruct Hwf as (Hk & _ & _). cbn in Hrun. specialize (IH j Hwf' Hrun' i).
+  destruct k; cbn in Hrun, Hk.
+  - subst x. split; intros Hi; rewrite kinds_of_cons_other by lia; apply IH; exact Hi.
+  - split; intros Hi.
+    + rewrite kinds_of_cons_other by lia. apply IH. lia.
+    + destruct (Nat.eq_dec j i) as [->|Hne]; [now rewrite kinds_of_cons_same|].
+      rewrite kinds_of_cons_other by exact Hne. apply IH. lia.
+  - split; intros Hi.
+    + destruct (Nat.eq_dec j i) as [->|Hne]; [now rewrite kinds_of_cons_same|].
+      rewrite kinds_of_cons_other by exact Hne. apply IH. lia.
+    + rewrite kinds_of_cons_other by lia. apply IH. lia.
+Qed.
+
+Lemma route_dn len i c : route len i c = KDn -> exists d, c = CDn 0 d /\ S i < len.
+Proof.
+  destruct c as [[|j]|[|j] u|[|s] d]; unfold route;
+    try (destruct (0 <? i)); try (destruct (S i <? len) eqn:E); intros H; try discriminate H.
+  all: exists d; split; [reflexivity|]; apply Nat.ltb_lt in E; exact E.
+Qed.
+
+Lemma route_up len i c :
+  route len i c = KUp -> (c = CSub 0 \/ exists u, c = CUp 0 u) /\ 0 < i.
+Proof.
+  destruct c as [[|j]|[|j] u|[|s] d]; unfold route; try (intros H; discriminate H).
+  - destruct (0 <? i) eqn:E; intros H; [|discriminate H]. apply Nat.ltb_lt in E. auto.
+  - destruct (0 <? i) eqn:E; intros H; [|discriminate H]. apply Nat.ltb_lt in E.
+    split; [right; now exists u|exact E].
+  - destruct (S i <? len); intros H; discriminate H.
+Qed.
+
+(** ** The core of a monitor state: what the links between neighbours read *)
+
+Definition link (u d : mstate) : Prop :=
+  match us d 0 with
+  | UNone => subd u 0 = false
+  | USubd => subd u 0 = true /\ sk u 0 = SNone
+  | ULive => subd u 0 = true /\ sk u 0 = SLive
+  | UEnded => subd u 0 = true /\ sk u 0 = SFinished
+  | UStopped => subd u 0 = true /\ sk u 0 = SDisposed
+  end.
+
+Lemma link_ext u d u' d' :
+  subd u' 0 = subd u 0 -> sk u' 0 = sk u 0 -> us d' 0 = us d 0 -> link u d -> link u' d'.
+Proof. unfold link. intros -> -> ->. auto. Qed.
+
+Lemma same_core_link_l u u' d : same_core u' u -> link u d -> link u' d.
+Proof. intros (A & B & _) H. apply (@link_ext u d u' d); [now rewrite A | now rewrite B | reflexivity | exact H]. Qed.
+
+Lemma same_core_link_r u d d' : same_core d' d -> link u d -> link u d'.
+Proof. intros (_ & _ & C & _) H. apply (@link_ext u d u d'); [reflexivity | reflexivity | now rewrite C | exact H]. Qed.
+
+(** ** The two transfers: a guarantee of the caller is the assumption of the callee *)
+
+Section Transfer.
+  Variable p : mparams.                   (* the callee's regime *)
+  Variable o : op.
+  Variable g : mstate -> input -> bool.
+  Variable c : cfg o.                     (* the callee *)
+  Hypothesis Hg : forall m inp, g m inp = g_std m inp.
+  Hypothesis Hlive : dead c = false.
+
+  Lemma top_peer_of_cstack q :
+    cstack (ms c) = map snd (stack c) ->
+    match cstack (ms c) with [] => True | cl :: _ => peer_of cl = q end ->
+    top_peer_is c q = true.
+  Proof.
+    unfold top_peer_is. intros E H. destruct (stack c) as [|[k cl] rest]; [reflexivity|].
+    rewrite E in H. cbn in H. rewrite H. destruct q; cbn; apply Nat.eqb_refl.
+  Qed.
+
+  (** the downstream neighbour (regime [pd], state [m1] just before the call) subscribes to, or
+      uses the talkback of, the callee *)
+  Lemma xfer_up (pd : mparams) (m1 : mstate) (cl : call) :
+    resub pd = false -> nsinks p = 1 -> one_pull p = false ->
+    (cl = CSub 0 \/ exists u, cl = CUp 0 u) ->
+    check_call pd m1 cl = [] ->
+    link (ms c) m1 ->
+    (subd (ms c) 0 = false -> c = cfg0 o) ->
+    top_peer_is c (PSink 0) = true ->
+    enabled p g c (MIn (xlate cl)) = true /\
+    link (mon_input p (ms c) (xlate cl)) (mon_call_upd m1 cl).
+  Proof.
+    intros Hrs Hns Hop Hcl Hchk Hlink Hinit Htop.
+    destruct Hcl as [->|[u ->]]; cbn [xlate].
+    - (* CSub 0 *)
+      cbn in Hchk. rewrite Hrs in Hchk. cbn in Hchk.
+      assert (Hus : us m1 0 = UNone).
+      { destruct (us m1 0); cbn in Hchk; try discriminate; reflexivity. }
+      unfold link in Hlink. rewrite Hus in Hlink. rewrite (Hinit Hlink).
+      split.
+      + unfold enabled. cbn. rewrite Hg, Hns. reflexivity.
+      + unfold link. cbn. rewrite ?upd_same; cbn; rewrite ?upd_same; auto.
+    - (* CUp 0 u *)
+      cbn in Hchk. apply app_eq_nil in Hchk. destruct Hchk as [Hchk _].
+      assert (Hus : us m1 0 = ULive).
+      { destruct (us m1 0); cbn in Hchk; try discriminate; reflexivity. }
+      unfold link in Hlink. rewrite Hus in Hlink. destruct Hlink as [Hsd Hsk].
+      split.
+      + unfold enabled. rewrite Hlive, Hg, Htop, Hsk, Hop. cbn. destruct u; reflexivity.
+      + unfold link. destruct u as [|e|]; cbn.
+        * rewrite Hus. auto.
+        * rewrite ?upd_same; cbn; auto.
+        * rewrite ?upd_same; cbn; auto.
+  Qed.
+
+  (** the upstream neighbour (regime [pu], state [m1] just before the call) delivers to the callee *)
+  Lemma xfer_dn (pu : mparams) (m1 : mstate) (d : dmsg) :
+    late_ok p = true -> pullable p = false ->
+    check_call pu m1 (CDn 0 d) = [] ->
+    link m1 (ms c) ->
+    subd m1 0 = true -> refused m1 0 = None ->
+    top_peer_is c (PUp 0) = true ->
+    enabled p g c (MIn (IDn 0 d)) = true /\
+    link (mon_call_upd m1 (CDn 0 d)) (mon_input p (ms c) (IDn 0 d)).
+  Proof.
+    intros Hlate Hpl Hchk Hlink Hsd Hrf Htop.
+    destruct d as [|v|e|].
+    - (* DH *)
+      cbn in Hchk.
+      assert (Hsk : sk m1 0 = SNone).
+      { destruct (sk m1 0); cbn in Hchk; try discriminate; reflexivity. }
+      assert (Hus : us (ms c) 0 = USubd).
+      { unfold link in Hlink. revert Hlink. destruct (us (ms c) 0); intros Hlink; try reflexivity;
+          try (match type of Hlink with _ /\ _ => destruct Hlink as [? ?] end); congruence. }
+      split.
+      + unfold enabled. rewrite Hlive, Hg, Htop, Hus, Hlate. reflexivity.
+      + unfold link. cbn. rewrite Hsk. cbn. rewrite ?upd_same; cbn; auto.
+    - (* DD *)
+      cbn in Hchk. apply app_eq_nil in Hchk. destruct Hchk as [Hchk _].
+      assert (Hsk : sk m1 0 = SLive).
+      { destruct (sk m1 0); cbn in Hchk; try discriminate; reflexivity. }
+      assert (Hus : us (ms c) 0 = ULive).
+      { unfold link in Hlink. revert Hlink. destruct (us (ms c) 0); intros Hlink; try reflexivity;
+          try (match type of Hlink with _ /\ _ => destruct Hlink as [? ?] end); congruence. }
+      split.
+      + unfold enabled. rewrite Hlive, Hg, Htop, Hus, Hpl. reflexivity.
+      + unfold link. cbn. rewrite Hus. auto.
+    - (* DE *)
+      cbn in Hchk. apply app_eq_nil in Hchk. destruct Hchk as [Hchk _].
+      assert (Hsk : sk m1 0 = SLive).
+      { rewrite Hrf in Hchk. destruct (sk m1 0); cbn in Hchk; try discriminate; reflexivity. }
+      assert (Hus : us (ms c) 0 = ULive).
+      { unfold link in Hlink. revert Hlink. destruct (us (ms c) 0); intros Hlink; try reflexivity;
+          try (match type of Hlink with _ /\ _ => destruct Hlink as [? ?] end); congruence. }
+      split.
+      + unfold enabled. rewrite Hlive, Hg, Htop, Hus, Hpl. reflexivity.
+      + unfold link. cbn. rewrite Hsk. cbn. rewrite ?upd_same.
+        destruct (err_due m1 0) as [e'|]; [destruct (Nat.eqb e e')|]; cbn; rewrite ?upd_same; auto.
+    - (* DT *)
+      cbn in Hchk. apply app_eq_nil in Hchk. destruct Hchk as [Hchk _].
+      assert (Hsk : sk m1 0 = SLive).
+      { destruct (sk m1 0); cbn in Hchk; try discriminate; reflexivity. }
+      assert (Hus : us (ms c) 0 = ULive).
+      { unfold link in Hlink. revert Hlink. destruct (us (ms c) 0); intros Hlink; try reflexivity;
+          try (match type of Hlink with _ /\ _ => destruct Hlink as [? ?] end); congruence. }
+      split.
+      + unfold enabled. rewrite Hlive, Hg, Htop, Hus, Hpl. reflexivity.
+      + unfold link. cbn. rewrite Hsk. cbn. rewrite ?upd_same; cbn; auto.
+  Qed.
+End Transfer.
+
+(** ** Which core fields an event can change *)
+
+Definition up0 (cl : call) : Prop := cl = CSub 0 \/ exists u, cl = CUp 0 u.
+Definition dn0 (cl : call) : Prop := exists d, cl = CDn 0 d.
+
+Lemma callupd_subd m cl : subd (mon_call_upd m cl) = subd m.
+Proof.
+  destruct cl as [i|i [| |]|s [|v|e|]]; cbn; try reflexivity.
+  - destruct (sk m s); reflexivity.
+  - destruct (sk m s), (err_due m s) as [e'|]; try destruct (Nat.eqb e e'); reflexivity.
+  - destruct (sk m s); reflexivity.
+Qed.
+
+Lemma callupd_refused m cl : refused (mon_call_upd m cl) = refused m.
+Proof.
+  destruct cl as [i|i [| |]|s [|v|e|]]; cbn; try reflexivity.
+  - destruct (sk m s); reflexivity.
+  - destruct (sk m s), (err_due m s) as [e'|]; try destruct (Nat.eqb e e'); reflexivity.
+  - destruct (sk m s); reflexivity.
+Qed.
+
+Lemma callupd_us0 m cl : ~ up0 cl -> us (mon_call_upd m cl) 0 = us m 0.
+Proof.
+  intros H. destruct cl as [i|i u|s d]; cbn.
+  - destruct i; [exfalso; apply H; now left|]. now rewrite upd_other.
+  - destruct i; [exfalso; apply H; right; now exists u|].
+    destruct u; cbn; try reflexivity; now rewrite upd_other.
+  - destruct d as [|v|e|]; cbn; try reflexivity.
+    + destruct (sk m s); reflexivity.
+    + destruct (sk m s), (err_due m s) as [e'|]; try destruct (Nat.eqb e e'); reflexivity.
+    + destruct (sk m s); reflexivity.
+Qed.
+
+Lemma callupd_sk0 m cl : ~ dn0 cl -> sk (mon_call_upd m cl) 0 = sk m 0.
+Proof.
+  intros H. destruct cl as [i|i u|s d]; cbn; try reflexivity.
+  - destruct u; reflexivity.
+  - destruct s; [exfalso; apply H; now exists d|].
+    destruct d as [|v|e|]; cbn; try reflexivity.
+    + destruct (sk m (S s)); cbn; try reflexivity; now rewrite upd_other.
+    + destruct (sk m (S s)), (err_due m (S s)) as [e'|]; try destruct (Nat.eqb e e'); cbn;
+        try reflexivity; now rewrite upd_other.
+    + destruct (sk m (S s)); cbn; try reflexivity; now rewrite upd_other.
+Qed.
+
+Definition is_dn0 (inp : input) : Prop := exists d, inp = IDn 0 d.
+Definition is_sink_input (inp : input) : Prop :=
+  match inp with ISub _ _ | IUp _ _ => True | _ => False end.
+
+Lemma input_us0 p m inp : ~ is_dn0 inp -> us (mon_input p m inp) 0 = us m 0.
+Proof.
+  intros H. destruct inp as [s [|aux]|s [|e|]|i d|s]; cbn; try reflexivity.
+  destruct i; [exfalso; apply H; now exists d|].
+  destruct d; cbn; try reflexivity; now rewrite upd_other.
+Qed.
+
+Lemma input_sk0 p m inp :
+  ~ is_sink_input inp -> sk (mon_input p m inp) 0 = sk m 0 /\ subd (mon_input p m inp) 0 = subd m 0.
+Proof.
+  intros H. destruct inp as [s aux|s u|i d|s]; cbn in H; try (exfalso; exact (H I)).
+  - destruct d; cbn; split; reflexivity.
+  - cbn. split; reflexivity.
+Qed.
+
+Lemma input_subd_mono p m inp : subd m 0 = true -> subd (mon_input p m inp) 0 = true.
+Proof.
+  intros H. destruct inp as [s [|aux]|s [|e|]|i [|v|e|]|s]; cbn; try exact H;
+    unfold upd; destruct (Nat.eqb 0 s); auto.
+Qed.
+
+Lemma input_refused p m inp g :
+  g m inp = g_std m inp -> g m inp = true -> refused (mon_input p m inp) = refused m.
+Proof.
+  intros Hg He. rewrite Hg in He.
+  destruct inp as [s [|aux]|s [|e|]|i [|v|e|]|s]; cbn in *; try reflexivity; discriminate.
+Qed.
+
+(** ** The invariant of a reachable net *)
+
+Section ChainSound.
+  Variable sigs : list (op * mparams * (mstate -> input -> bool)).
+  Hypothesis Hsafe : forall s, In s sigs -> safe_sig s.
+
+  Definition regime_ok (i : nat) (s : op * mparams * (mstate -> input -> bool)) : Prop :=
+    let '(o, p, g) := s in
+    nsinks p = 1 /\ resub p = false /\ pullable p = false /\ one_pull p = false /\
+    (0 < i -> late_ok p = true) /\ (forall m inp, g m inp = g_std m inp).
+  Hypothesis Hreg : forall i s, nth_error sigs i = Some s -> regime_ok i s.
+
+  Definition eff (pd : pending) (i : nat) (n : node) : mstate :=
+    match pd with
+    | PTo k inp => if k =? i then mon_input (npar n) (nms n) inp else nms n
+    | _ => nms n
+    end.
+
+  Definition nodes_ok (ns : list node) : Prop :=
+    map nsig ns = sigs /\
+    forall i n, nth_error ns i = Some n -> nreach n /\ (subd (nms n) 0 = false -> ninit n).
+
+  Definition stacks_ok (ns : list node) (G : list (nat * gkind)) : Prop :=
+    forall i n, nth_error ns i = Some n ->
+      map (route (length ns) i) (cstack (nms n)) = kinds_of i G.
+
+  Definition links_ok (ns : list node) (pd : pending) : Prop :=
+    forall i U D, nth_error ns i = Some U -> nth_error ns (S i) = Some D ->
+      link (eff pd i U) (eff pd (S i) D).
+
+  Definition pend_ok (ns : list node) (G : list (nat * gkind)) (pd : pending) : Prop :=
+    match pd with
+    | PIdle => match G with [] => True | (_, KExt) :: _ => True | _ => False end
+    | PTo i inp =>
+        (exists j k, hd_error G = Some (j, k) /\ k <> KExt /\ owner_above (j, k) = i) /\
+        exists n, nth_error ns i = Some n /\ nenabled n (MIn inp) = true
+    | PRet j => exists k, hd_error G = Some (j, k) /\ k <> KExt
+    end.
+
+  Definition Inv (N : net) : Prop :=
+    nodes_ok (nodes N) /\ stacks_ok (nodes N) (gst N) /\ wfG (length (nodes N)) (gst N) /\
+    pend_ok (nodes N) (gst N) (pend N) /\ links_ok (nodes N) (pend N).
+
+  (** what the hypotheses say about one node of a well-formed list *)
+  Lemma node_facts ns i n :
+    map nsig ns = sigs -> nth_error ns i = Some n ->
+    (forall c : cfg (nop n), reach (npar n) (ngrd n) c -> viols (ms c) = [] /\ dead c = false) /\
+    nsinks (npar n) = 1 /\ resub (npar n) = false /\ pullable (npar n) = false /\
+    one_pull (npar n) = false /\ (0 < i -> late_ok (npar n) = true) /\
+    (forall m inp, ngrd n m inp = g_std m inp).
+  Proof.
+    intros Hs Hn.
+    assert (H : nth_error sigs i = Some (nsig n)).
+    { rewrite <- Hs. now apply map_nth_error. }
+    split.
+    - exact (Hsafe (nsig n) (nth_error_In _ _ H)).
+    - exact (Hreg i H).
+  Qed.
+
+  Lemma nreach_refused n :
+    (forall c : cfg (nop n), reach (npar n) (ngrd n) c -> viols (ms c) = [] /\ dead c = false) ->
+    (forall m inp, ngrd n m inp = g_std m inp) ->
+    nreach n -> forall s, refused (nms n) s = None.
+  Proof.
+    intros Hs Hg Hr. unfold nreach, nms in *. induction Hr as [|c m Hr IH He]; [reflexivity|].
+    destruct (Hs _ (reachS m Hr He)) as [Hv Hd].
+    assert (Hin : refused (mon_move (npar n) (ms c) m) = refused (ms c)).
+    { destruct m as [inp|]; [|reflexivity].
+      apply (@input_refused (npar n) (ms c) inp (ngrd n)); [apply Hg|].
+      unfold enabled in He. apply andb_prop in He. destruct He as [_ He].
+      apply andb_prop in He. tauto. }
+    intros s.
+    destruct (step_summary _ _ _ _ He Hv Hd) as [m1 cl H1 _ _ H3|_ H3].
+    - destruct H3 as (_ & _ & _ & R & _). destruct H1 as (_ & _ & _ & R1 & _).
+      rewrite R. cbn. rewrite callupd_refused, R1, Hin. apply IH.
+    - destruct H3 as (_ & _ & _ & R & _). rewrite R, Hin. apply IH.
+  Qed.
+
+  (** after an enabled step the node has been subscribed *)
+  Lemma subd_after_move n m :
+    nsinks (npar n) = 1 ->
+    (subd (nms n) 0 = false -> ninit n) ->
+    nenabled n m = true ->
+    subd (mon_move (npar n) (nms n) m) 0 = true.
+  Proof.
+    intros Hns Hi He. destruct (subd (nms n) 0) eqn:E.
+    - destruct m as [inp|]; [now apply input_subd_mono | exact E].
+    - specialize (Hi eq_refl). unfold nenabled in He. unfold ninit in Hi.
+      unfold nms. rewrite Hi in *.
+      destruct (enabled_cfg0 _ _ _ _ Hns He) as [aux ->]. cbn.
+      destruct aux; cbn; rewrite ?upd_same; reflexivity.
+  Qed.
+
+  (** the state a step starts from, seen from the neighbours *)
+  Definition effx (x : nat) (m : move) (i : nat) (n : node) : mstate :=
+    if i =? x then mon_move (npar n) (nms n) m else nms n.
+
+  Lemma top_kind_peer len G i n (want : gkind) q :
+    map (route len i) (cstack (nms n)) = kinds_of i G -> nreach n ->
+    match kinds_of i G with [] => True | k :: _ => k = want end ->
+    (forall cl, route len i cl = want -> peer_of cl = q) ->
+    top_peer_is (ncfg n) q = true.
+  Proof.
+    intros Hst Hr Hk Hq.
+    apply top_peer_of_cstack.
+    - exact (reach_cstack Hr).
+    - unfold nms in Hst.
+      destruct (cstack (ms (ncfg n))) as [|cl rest]; [exact I|].
+      cbn in Hst. rewrite <- Hst in Hk. apply Hq. exact Hk.
+  Qed.
+
+  (** core of the state after a step, from its summary *)
+  Lemma sum_core p o (c : cfg o) m :
+    step_sum p c m ->
+    subd (ms (step p c m)) = subd (mon_move p (ms c) m) /\
+    refused (ms (step p c m)) = refused (mon_move p (ms c) m).
+  Proof.
+    intros [m1 cl (A1 & _ & _ & R1 & _) _ _ (A3 & _ & _ & R3 & _)|_ (A3 & _ & _ & R3 & _)].
+    - rewrite A3, R3. cbn. rewrite callupd_subd, callupd_refused. split; congruence.
+    - split; assumption.
+  Qed.
+
+  Lemma after_step_inv (ns : list node) (G1 : list (nat * gkind)) (pd0 : pending) x n m :
+    nodes_ok ns ->
+    nth_error ns x = Some n ->
+    nenabled n m = true ->
+    wfG (length ns) G1 -> runner_ok x G1 ->
+    (forall i ni, nth_error ns i = Some ni -> i <> x ->
+        map (route (length ns) i) (cstack (nms ni)) = kinds_of i G1) ->
+    map (route (length ns) x) (cstack (mon_move (npar n) (nms n) m)) = kinds_of x G1 ->
+    (forall i U D, nth_error ns i = Some U -> nth_error ns (S i) = Some D ->
+        link (effx x m i U) (effx x m (S i) D)) ->
+    Inv (after_step (mk_net ns G1 pd0) x (nstep n m)).
+  Proof.
+    intros [Hsig Hnodes] Hn He Hwf Hrun Hst Hstx Hlk.
+    destruct (@node_facts ns x n Hsig Hn) as (Hsafe_n & Hns & Hrs & Hpl & Hop & Hlate & Hg).
+    destruct (Hnodes x n Hn) as [Hr Hinit].
+    set (n' := nstep n m).
+    assert (Hr' : nreach n') by (unfold nreach, n', nstep; cbn; now apply reachS).
+    destruct (Hsafe_n _ Hr') as [Hv Hd].
+    pose proof (step_summary _ _ _ _ He Hv Hd) as Hsum.
+    pose proof (@subd_after_move n m Hns Hinit He) as Hsubd.
+    pose proof (@nreach_refused n Hsafe_n Hg Hr) as Hrf.
+    destruct (sum_core Hsum) as [Hsd' Hrf'].
+    change (ms (step (npar n) (ncfg n) m)) with (nms n') in Hsd', Hrf'.
+    change (ms (ncfg n)) with (nms n) in Hsd', Hrf'.
+    set (ns' := set_nth x n' ns).
+    assert (Hlen : length ns' = length ns) by apply set_nth_length.
+    assert (Hx' : nth_error ns' x = Some n') by (eapply nth_set_same; eauto).
+    assert (Ho' : forall j, j <> x -> nth_error ns' j = nth_error ns j)
+      by (intros j Hj; apply nth_set_other; congruence).
+    assert (Hxlt : x < length ns) by (eapply nth_error_lt; eauto).
+    assert (Hnodes' : nodes_ok ns').
+    { split.
+      - unfold ns'. rewrite (@map_set_nth _ _ nsig x n' n ns Hn); [exact Hsig|reflexivity].
+      - intros i ni Hi. destruct (Nat.eq_dec i x) as [->|Hix].
+        + rewrite Hx' in Hi. inversion Hi; subst ni. split; [exact Hr'|].
+          intros H0. rewrite Hsd', Hsubd in H0. discriminate.
+        + rewrite Ho' in Hi by exact Hix. exact (Hnodes i ni Hi). }
+    (* the three kinds of pairs *)
+    assert (Hpair : forall i U' D', nth_error ns' i = Some U' -> nth_error ns' (S i) = Some D' ->
+              (i = x /\ U' = n' /\ nth_error ns (S x) = Some D') \/
+              (S i = x /\ D' = n' /\ nth_error ns i = Some U') \/
+              (i <> x /\ S i <> x /\ nth_error ns i = Some U' /\ nth_error ns (S i) = Some D')).
+    { intros i U' D' HU HD. destruct (Nat.eq_dec i x) as [->|Hix].
+      - left. rewrite Hx' in HU. inversion HU. rewrite Ho' in HD by lia. auto.
+      - destruct (Nat.eq_dec (S i) x) as [Hsx|Hsx].
+        + right. left. rewrite Hsx, Hx' in HD. inversion HD. rewrite Ho' in HU by exact Hix. auto.
+        + right. right. rewrite Ho' in HU, HD by assumption. auto. }
+    assert (Ex : forall nn, effx x m x nn = mon_move (npar nn) (nms nn) m)
+      by (intros nn; unfold effx; now rewrite Nat.eqb_refl).
+    assert (Eo : forall j nn, j <> x -> effx x m j nn = nms nn)
+      by (intros j nn Hj; unfold effx; destruct (Nat.eqb_spec j x); [contradiction|reflexivity]).
+    unfold after_step. cbn [nodes gst]. fold n'. fold ns'.
+    destruct Hsum as [m1 cl H1 Hl Hchk H3|Hl H3];
+      change (hd_error (rtrace (step (npar n) (ncfg n) m))) with (nlast n') in Hl;
+      change (ms (step (npar n) (ncfg n) m)) with (nms n') in H3;
+      change (ms (ncfg n)) with (nms n) in *; rewrite Hl.
+    - (* the step ended in a call *)
+      destruct H1 as (A1 & B1 & C1 & R1 & S1). destruct H3 as (A3 & B3 & C3 & R3 & S3).
+      cbn in A3, B3, C3, R3, S3.
+      assert (Hcs : cstack (nms n') = cl :: cstack (mon_move (npar n) (nms n) m)) by congruence.
+      assert (Hstk : forall K, route (length ns) x cl = K -> stacks_ok ns' ((x, K) :: G1)).
+      { intros K EK i ni Hi. rewrite Hlen. destruct (Nat.eq_dec i x) as [->|Hix].
+        - rewrite Hx' in Hi. inversion Hi; subst ni. rewrite Hcs. cbn [map].
+          rewrite EK, Hstx, kinds_of_cons_same. reflexivity.
+        - rewrite Ho' in Hi by exact Hix. rewrite kinds_of_cons_other by congruence.
+          now apply Hst. }
+      assert (Hwfp : forall K, kind_ok (length ns) (x, K) -> wfG (length ns') ((x, K) :: G1)).
+      { intros K HK. rewrite Hlen. cbn. split; [exact HK|]. split; [exact Hwf|].
+        destruct G1 as [|e' G1']; [exact I|]. cbn in Hrun. cbn. congruence. }
+      (* the core of the new state of node x *)
+      assert (Hsk_keep : ~ dn0 cl -> sk (nms n') 0 = sk (mon_move (npar n) (nms n) m) 0).
+      { intros H. rewrite B3, (callupd_sk0 m1 H). congruence. }
+      assert (Hus_keep : ~ up0 cl -> us (nms n') 0 = us (mon_move (npar n) (nms n) m) 0).
+      { intros H. rewrite C3, (callupd_us0 m1 H). congruence. }
+      assert (Hsd_keep : subd (nms n') 0 = subd (mon_move (npar n) (nms n) m) 0) by congruence.
+      destruct (route (length ns) x cl) eqn:Er; unfold Inv; cbn [nodes gst pend].
+      + (* external call *)
+        split; [exact Hnodes'|]. split; [now apply Hstk|]. split; [apply Hwfp; exact Hxlt|].
+        split; [exact I|].
+        intros i U' D' HU HD. cbn [eff].
+        destruct (Hpair i U' D' HU HD) as [(-> & -> & HD0)|[(Hsx & -> & HU0)|(Hix & Hsx & HU0 & HD0)]].
+        * specialize (Hlk x n D' Hn HD0). rewrite Ex, Eo in Hlk by lia.
+          assert (Hnd : ~ dn0 cl).
+          { intros [d ->]. unfold route in Er. apply nth_error_lt in HD0.
+            apply Nat.ltb_lt in HD0. rewrite HD0 in Er. discriminate. }
+          eapply link_ext; [| | reflexivity | exact Hlk]; [exact Hsd_keep | now apply Hsk_keep].
+        * specialize (Hlk i U' n HU0). rewrite Hsx in Hlk. specialize (Hlk Hn).
+          rewrite Ex, Eo in Hlk by lia.
+          assert (Hnu : ~ up0 cl).
+          { intros H. assert (0 < x) by lia. apply Nat.ltb_lt in H0. unfold route in Er.
+            destruct H as [->|[u ->]]; rewrite H0 in Er; discriminate. }
+          eapply link_ext; [reflexivity | reflexivity | | exact Hlk]. now apply Hus_keep.
+        * specialize (Hlk i U' D' HU0 HD0). now rewrite !Eo in Hlk by assumption.
+      + (* call up into node x-1 *)
+        destruct (route_up _ _ _ Er) as [Hup Hx0].
+        assert (Hnd : ~ dn0 cl) by (intros [d ->]; destruct Hup as [H|[u H]]; discriminate).
+        destruct (nth_error ns (pred x)) as [nu|] eqn:Hnu.
+        2: { apply nth_error_None in Hnu. lia. }
+        destruct (@node_facts ns (pred x) nu Hsig Hnu) as (Hsafe_u & Hns_u & _ & _ & Hop_u & _ & Hg_u).
+        destruct (Hnodes _ _ Hnu) as [Hr_u Hinit_u].
+        destruct (Hsafe_u _ Hr_u) as [_ Hd_u].
+        assert (Hlk0 : link (nms nu) m1).
+        { specialize (Hlk (pred x) nu n Hnu). replace (S (pred x)) with x in Hlk by lia.
+          specialize (Hlk Hn). rewrite Ex, Eo in Hlk by lia.
+          eapply link_ext; [reflexivity | reflexivity | | exact Hlk]. congruence. }
+        assert (Htop : top_peer_is (ncfg nu) (PSink 0) = true).
+        { apply (@top_kind_peer (length ns) G1 (pred x) nu KDn).
+          - apply Hst; [exact Hnu|lia].
+          - exact Hr_u.
+          - destruct (@first_kind (length ns) G1 x Hwf Hrun (pred x)) as [Hfk _]. apply Hfk. lia.
+          - intros cl0 H0. destruct (route_dn _ _ _ H0) as (d & -> & _). reflexivity. }
+        destruct (@xfer_up (npar nu) (nop nu) (ngrd nu) (ncfg nu) Hg_u Hd_u (npar n) m1 cl
+                    Hrs Hns_u Hop_u Hup Hchk Hlk0 Hinit_u Htop) as [Hen Hlk1].
+        split; [exact Hnodes'|]. split; [now apply Hstk|].
+        split; [apply Hwfp; cbn; lia|].
+        split.
+        { split.
+          - exists x, KUp. cbn. repeat split; congruence.
+          - exists nu. split; [rewrite Ho' by lia; exact Hnu | exact Hen]. }
+        intros i U' D' HU HD. unfold eff.
+        destruct (Hpair i U' D' HU HD) as [(-> & -> & HD0)|[(Hsx & -> & HU0)|(Hix & Hsx & HU0 & HD0)]].
+        * replace (pred x =? x) with false by (symmetry; apply Nat.eqb_neq; lia).
+          replace (pred x =? S x) with false by (symmetry; apply Nat.eqb_neq; lia).
+          specialize (Hlk x n D' Hn HD0). rewrite Ex, Eo in Hlk by lia.
+          eapply link_ext; [| | reflexivity | exact Hlk]; [exact Hsd_keep | now apply Hsk_keep].
+        * assert (i = pred x) by lia. subst i.
+          rewrite Nat.eqb_refl. replace (pred x =? S (pred x)) with false
+            by (symmetry; apply Nat.eqb_neq; lia).
+          assert (U' = nu) by congruence. subst U'.
+          eapply link_ext; [reflexivity | reflexivity | | exact Hlk1]. congruence.
+        * specialize (Hlk i U' D' HU0 HD0). rewrite !Eo in Hlk by assumption.
+          replace (pred x =? i) with false by (symmetry; apply Nat.eqb_neq; lia).
+          destruct (Nat.eqb_spec (pred x) (S i)) as [E|E]; [|exact Hlk].
+          eapply link_ext; [reflexivity | reflexivity | | exact Hlk].
+          apply input_us0. intros [d Hd0]. destruct Hup as [->|[u ->]]; discriminate.
+      + (* call down into node x+1 *)
+        destruct (route_dn _ _ _ Er) as (d & -> & Hsx).
+        assert (Hnu0 : ~ up0 (CDn 0 d)) by (intros [H|[u H]]; discriminate).
+        destruct (nth_error ns (S x)) as [nd|] eqn:Hnd.
+        2: { apply nth_error_None in Hnd. lia. }
+        destruct (@node_facts ns (S x) nd Hsig Hnd) as (Hsafe_d & _ & _ & Hpl_d & _ & Hlate_d & Hg_d).
+        destruct (Hnodes _ _ Hnd) as [Hr_d _].
+        destruct (Hsafe_d _ Hr_d) as [_ Hd_d].
+        assert (Hlk0 : link m1 (nms nd)).
+        { specialize (Hlk x n nd Hn Hnd). rewrite Ex, Eo in Hlk by lia.
+          eapply link_ext; [| | reflexivity | exact Hlk]; congruence. }
+        assert (Htop : top_peer_is (ncfg nd) (PUp 0) = true).
+        { apply (@top_kind_peer (length ns) G1 (S x) nd KUp).
+          - apply Hst; [exact Hnd|lia].
+          - exact Hr_d.
+          - destruct (@first_kind (length ns) G1 x Hwf Hrun (S x)) as [_ Hfk]. apply Hfk. lia.
+          - intros cl0 H0. destruct (route_up _ _ _ H0) as [[->|[u ->]] _]; reflexivity. }
+        assert (Hsd1 : subd m1 0 = true) by congruence.
+        assert (Hrf1 : refused m1 0 = None).
+        { rewrite R1. destruct m as [inp|]; cbn [mon_move mon_event]; [|apply Hrf].
+          rewrite (@input_refused (npar n) (nms n) inp (ngrd n)); [apply Hrf|apply Hg|].
+          unfold nenabled, enabled in He. apply andb_prop in He. destruct He as [_ He].
+          apply andb_prop in He. tauto. }
+        destruct (@xfer_dn (npar nd) (nop nd) (ngrd nd) (ncfg nd) Hg_d Hd_d (npar n) m1 d
+                    (Hlate_d ltac:(lia)) Hpl_d Hchk Hlk0 Hsd1 Hrf1 Htop) as [Hen Hlk1].
+        split; [exact Hnodes'|]. split; [now apply Hstk|].
+        split; [apply Hwfp; cbn; lia|].
+        split.
+        { split.
+          - exists x, KDn. cbn. repeat split; congruence.
+          - exists nd. split; [rewrite Ho' by lia; exact Hnd | exact Hen]. }
+        intros i U' D' HU HD. unfold eff. cbn [xlate].
+        destruct (Hpair i U' D' HU HD) as [(-> & -> & HD0)|[(Hsx' & -> & HU0)|(Hix & Hsx' & HU0 & HD0)]].
+        * replace (S x =? x) with false by (symmetry; apply Nat.eqb_neq; lia).
+          rewrite Nat.eqb_refl. assert (D' = nd) by congruence. subst D'.
+          eapply link_ext; [| | reflexivity | exact Hlk1]; congruence.
+        * replace (S x =? i) with false by (symmetry; apply Nat.eqb_neq; lia).
+          replace (S x =? S i) with false by (symmetry; apply Nat.eqb_neq; lia).
+          specialize (Hlk i U' n HU0). rewrite Hsx' in Hlk. specialize (Hlk Hn).
+          rewrite Ex, Eo in Hlk by lia.
+          eapply link_ext; [reflexivity | reflexivity | | exact Hlk]. now apply Hus_keep.
+        * specialize (Hlk i U' D' HU0 HD0). rewrite !Eo in Hlk by assumption.
+          replace (S x =? S i) with false by (symmetry; apply Nat.eqb_neq; lia).
+          destruct (Nat.eqb_spec (S x) i) as [E|E]; [|exact Hlk].
+          destruct (@input_sk0 (npar U') (nms U') (IDn 0 d)) as [Ha Hb]; [intros H; exact H|].
+          eapply link_ext; [exact Hb | exact Ha | reflexivity | exact Hlk].
+    - (* the step ended with a return *)
+      destruct H3 as (A3 & B3 & C3 & R3 & S3).
+      assert (Hstk : stacks_ok ns' G1).
+      { intros i ni Hi. rewrite Hlen. destruct (Nat.eq_dec i x) as [->|Hix].
+        - rewrite Hx' in Hi. inversion Hi; subst ni. rewrite S3. exact Hstx.
+        - rewrite Ho' in Hi by exact Hix. now apply Hst. }
+      assert (Hlinks : forall pd, (forall j nn, eff pd j nn = nms nn) -> links_ok ns' pd).
+      { intros pd Hpd i U' D' HU HD. rewrite !Hpd.
+        destruct (Hpair i U' D' HU HD) as [(-> & -> & HD0)|[(Hsx & -> & HU0)|(Hix & Hsx & HU0 & HD0)]].
+        - specialize (Hlk x n D' Hn HD0). rewrite Ex, Eo in Hlk by lia.
+          eapply link_ext; [| | reflexivity | exact Hlk]; congruence.
+        - specialize (Hlk i U' n HU0). rewrite Hsx in Hlk. specialize (Hlk Hn).
+          rewrite Ex, Eo in Hlk by lia.
+          eapply link_ext; [reflexivity | reflexivity | | exact Hlk]. congruence.
+        - specialize (Hlk i U' D' HU0 HD0). now rewrite !Eo in Hlk by assumption. }
+      rewrite <- Hlen in Hwf.
+      destruct G1 as [|[j [| |]] G1']; unfold Inv; cbn [nodes gst pend].
+      + split; [exact Hnodes'|]. split; [exact Hstk|]. split; [exact Hwf|].
+        split; [exact I|]. now apply Hlinks.
+      + split; [exact Hnodes'|]. split; [exact Hstk|]. split; [exact Hwf|].
+        split; [exact I|]. now apply Hlinks.
+      + split; [exact Hnodes'|]. split; [exact Hstk|]. split; [exact Hwf|].
+        split; [exists KUp; split; [reflexivity|discriminate]|]. now apply Hlinks.
+      + split; [exact Hnodes'|]. split; [exact Hstk|]. split; [exact Hwf|].
+        split; [exists KDn; split; [reflexivity|discriminate]|]. now apply Hlinks.
+  Qed.
+
+  (** ** Every net step preserves the invariant *)
+
+  Lemma ret_prep ns G' x K n :
+    stacks_ok ns ((x, K) :: G') -> nth_error ns x = Some n ->
+    (forall i ni, nth_error ns i = Some ni -> i <> x ->
+        map (route (length ns) i) (cstack (nms ni)) = kinds_of i G') /\
+    map (route (length ns) x) (cstack (mon_move (npar n) (nms n) MRet)) = kinds_of x G' /\
+    exists cl rest, cstack (nms n) = cl :: rest /\ route (length ns) x cl = K.
+  Proof.
+    intros Hst Hn. split; [|split].
+    - intros i ni Hi Hix. rewrite (Hst i ni Hi). apply kinds_of_cons_other. congruence.
+    - specialize (Hst x n Hn). rewrite kinds_of_cons_same in Hst. cbn.
+      destruct (cstack (nms n)) as [|cl rest]; [discriminate|]. cbn in *. congruence.
+    - specialize (Hst x n Hn). rewrite kinds_of_cons_same in Hst.
+      destruct (cstack (nms n)) as [|cl rest]; [discriminate|]. cbn in Hst.
+      exists cl, rest. split; [reflexivity|congruence].
+  Qed.
+
+  Lemma links_core_move ns pd x m :
+    links_ok ns pd -> (forall j nn, eff pd j nn = nms nn) ->
+    (forall n, nth_error ns x = Some n ->
+       (forall D, nth_error ns (S x) = Some D ->
+          subd (mon_move (npar n) (nms n) m) 0 = subd (nms n) 0 /\
+          sk (mon_move (npar n) (nms n) m) 0 = sk (nms n) 0) /\
+       (0 < x -> us (mon_move (npar n) (nms n) m) 0 = us (nms n) 0)) ->
+    forall i U D, nth_error ns i = Some U -> nth_error ns (S i) = Some D ->
+      link (effx x m i U) (effx x m (S i) D).
+  Proof.
+    intros Hlk Hpd Hcore i U D HU HD. specialize (Hlk i U D HU HD). rewrite !Hpd in Hlk.
+    unfold effx. destruct (Nat.eqb_spec i x) as [->|Hix].
+    - replace (S x =? x) with false by (symmetry; apply Nat.eqb_neq; lia).
+      destruct (Hcore U HU) as [H1 _]. destruct (H1 D HD) as [Ha Hb].
+      eapply link_ext; [exact Ha | exact Hb | reflexivity | exact Hlk].
+    - destruct (Nat.eqb_spec (S i) x) as [Hsx|Hsx]; [|exact Hlk].
+      rewrite Hsx in HD. destruct (Hcore D HD) as [_ H2].
+      eapply link_ext; [reflexivity | reflexivity | apply H2; lia | exact Hlk].
+  Qed.
+
+  Lemma net_step_inv N mv : Inv N -> net_enabled N mv = true -> Inv (net_step N mv).
+  Proof.
+    destruct N as [ns G pd]. intros (Hnodes & Hst & Hwf & Hpend & Hlk) He.
+    cbn [nodes gst pend] in *. unfold net_enabled, net_step in *. cbn [nodes gst pend] in *.
+    destruct mv as [x m|]; destruct pd as [|t inp|j]; try discriminate.
+    - (* the environment acts on node x *)
+      destruct (nth_error ns x) as [n|] eqn:Hn; [|discriminate].
+      apply andb_prop in He. destruct He as [Hen He].
+      destruct m as [inp|].
+      + apply andb_prop in He. destruct He as [Hext HG].
+        apply after_step_inv; [exact Hnodes | exact Hn | exact Hen | exact Hwf | | | |].
+        * destruct G as [|[j [| |]] G']; try discriminate; [exact I|].
+          apply Nat.eqb_eq in HG. cbn. exact HG.
+        * intros i ni Hi _. now apply Hst.
+        * cbn [mon_move]. rewrite mon_input_cstack. now apply Hst.
+        * apply (links_core_move (pd := PIdle)); [exact Hlk | reflexivity|].
+          intros n0 Hn0. assert (n0 = n) by congruence. subst n0. cbn [mon_move]. split.
+          -- intros D HD. apply nth_error_lt in HD.
+             destruct (@input_sk0 (npar n) (nms n) inp) as [Ha Hb]; [|split; assumption].
+             intros Hs. destruct inp as [s0 aux|s0 u|i0 d|s0]; cbn in Hs; try contradiction;
+               unfold ext_input_ok in Hext; apply Nat.eqb_eq in Hext; lia.
+          -- intros Hx0. apply input_us0. intros [d ->]. unfold ext_input_ok in Hext.
+             apply Nat.eqb_eq in Hext. lia.
+      + destruct G as [|[j [| |]] G']; try discriminate.
+        apply Nat.eqb_eq in He. subst j.
+        destruct (wfG_tl Hwf) as [Hwf' Hrun']. cbn [fst] in Hrun'.
+        destruct (ret_prep Hst Hn) as (Hs1 & Hs2 & _).
+        apply after_step_inv; [exact Hnodes | exact Hn | exact Hen | exact Hwf' | exact Hrun' | exact Hs1 | exact Hs2 |].
+        apply (links_core_move (pd := PIdle)); [exact Hlk | reflexivity|].
+        intros n0 Hn0. assert (n0 = n) by congruence. subst n0. cbn. auto.
+    - (* the pending internal transfer into node t *)
+      destruct Hpend as [(j & k & Hhd & Hk & Hown) (n & Hn & Hen)].
+      rewrite Hn.
+      apply after_step_inv; [exact Hnodes | exact Hn | exact Hen | exact Hwf | | | |].
+      + destruct G as [|e G']; [discriminate|]. cbn in Hhd. inversion Hhd; subst e. exact Hown.
+      + intros i ni Hi _. now apply Hst.
+      + cbn [mon_move]. rewrite mon_input_cstack. now apply Hst.
+      + intros i U D HU HD. specialize (Hlk i U D HU HD). unfold eff in Hlk. unfold effx.
+        cbn [mon_move]. rewrite (Nat.eqb_sym i t), (Nat.eqb_sym (S i) t). exact Hlk.
+    - (* the return to node j *)
+      destruct Hpend as (k & Hhd & Hk).
+      destruct G as [|e G']; [discriminate|]. cbn in Hhd. inversion Hhd; subst e.
+      destruct (wfG_tl Hwf) as [Hwf' Hrun']. cbn [fst] in Hrun'.
+      assert (Hj : j < length ns).
+      { destruct Hwf as (Hko & _). destruct k; cbn in Hko; lia. }
+      destruct (nth_error ns j) as [n|] eqn:Hn.
+      2: { apply nth_error_None in Hn. lia. }
+      destruct (ret_prep Hst Hn) as (Hs1 & Hs2 & cl & rest & Hcs & Hrt).
+      destruct Hnodes as [Hsig Hnd]. destruct (Hnd j n Hn) as [Hr _].
+      destruct (@node_facts ns j n Hsig Hn) as (Hsafe_n & _ & _ & _ & _ & Hlate & _).
+      destruct (Hsafe_n _ Hr) as [_ Hd].
+      assert (Hen : nenabled n MRet = true).
+      { unfold nenabled, enabled. rewrite Hd. cbn [negb andb].
+        pose proof (reach_cstack Hr) as Hc. change (ms (ncfg n)) with (nms n) in Hc.
+        rewrite Hcs in Hc. destruct (stack (ncfg n)) as [|[f c0] st']; [discriminate|].
+        cbn in Hc. inversion Hc; subst c0.
+        destruct cl as [i0|i0 u0|s0 d0]; try reflexivity.
+        destruct k; [congruence| |].
+        - destruct (route_up _ _ _ Hrt) as [_ Hj0]. rewrite (Hlate Hj0). reflexivity.
+        - destruct (route_dn _ _ _ Hrt) as (d & Hc0 & _). discriminate. }
+      apply after_step_inv; [split; assumption | exact Hn | exact Hen | exact Hwf' | exact Hrun' | exact Hs1 | exact Hs2 |].
+      apply (links_core_move (pd := PRet j)); [exact Hlk | reflexivity|].
+      intros n0 Hn0. assert (n0 = n) by congruence. subst n0. cbn. auto.
+  Qed.
+
+  (** ** The composition theorem *)
+
+  Definition net0 (ns : list node) : net := mk_net ns [] PIdle.
+
+  Lemma inv0 ns :
+    map nsig ns = sigs -> (forall n, In n ns -> ninit n) -> Inv (net0 ns).
+  Proof.
+    intros Hsig Hinit. unfold Inv, net0. cbn [nodes gst pend].
+    assert (Hms : forall i n, nth_error ns i = Some n -> nms n = ms0).
+    { intros i n Hn. unfold nms. rewrite (Hinit n (nth_error_In _ _ Hn)). reflexivity. }
+    split; [split; [exact Hsig|]|].
+    - intros i n Hn. split.
+      + unfold nreach. rewrite (Hinit n (nth_error_In _ _ Hn)). constructor.
+      + intros _. exact (Hinit n (nth_error_In _ _ Hn)).
+    - split; [|split; [exact I|split; [exact I|]]].
+      + intros i n Hn. rewrite (Hms i n Hn). reflexivity.
+      + intros i U D HU HD. cbn [eff]. rewrite (Hms _ _ HU), (Hms _ _ HD). reflexivity.
+  Qed.
+
+  Theorem chain_inv ns N :
+    map nsig ns = sigs -> (forall n, In n ns -> ninit n) ->
+    net_reach (net0 ns) N -> Inv N.
+  Proof.
+    intros Hsig Hinit Hr. induction Hr as [|N mv Hr IH He]; [now apply inv0|].
+    now apply net_step_inv.
+  Qed.
+
+  (** every node of every reachable net is reachable in its own conformant environment; so
+      every theorem about the component holds of it *)
+  Theorem chain_sound ns N :
+    map nsig ns = sigs -> (forall n, In n ns -> ninit n) ->
+    net_reach (net0 ns) N ->
+    forall i n, nth_error (nodes N) i = Some n ->
+      nsig n = nth i sigs (nsig n) /\ nreach n /\ viols (nms n) = [] /\ dead (ncfg n) = false.
+  Proof.
+    intros Hsig Hinit Hr i n Hn.
+    destruct (chain_inv Hsig Hinit Hr) as ([Hs Hnd] & _).
+    destruct (Hnd i n Hn) as [Hre _].
+    destruct (@node_facts (nodes N) i n Hs Hn) as (Hsafe_n & _).
+    split; [|split; [exact Hre | exact (Hsafe_n _ Hre)]].
+    rewrite <- Hs. symmetry. apply nth_error_nth. now apply map_nth_error.
+  Qed.
+End ChainSound.
+
+Print Assumptions chain_sound.
